@@ -1,3 +1,240 @@
-import PybtexModel.Model.Basic
+/-
+C02 — write/read round trip and cross-format conversion preserve the database.
+
+Property theorems only.  Models: `Model/BibWrite.lean` (the three writers, the YAML / BibTeXML
+readers, `lower()`, `convert`), `Model/BibParse.lean` (the `.bib` reader), `Model/Names.lean`
+(`Person(...)`).  Domain predicates and closed forms: `Spec/BibWrite.lean`.  Helper lemmas:
+`Lemmas/BibWriteSplit.lean` (`split_tex_string` as a flat scan), `Lemmas/BibWriteNames.lean` (tokens,
+names), `Lemmas/BibWritePieces.lean` (completeness of splitting).
+
+The model follows the code after the repairs proposed_fixes/C02-1 (`_format_name` / `__str__` keep
+an empty First part) and C02-2 (BibTeXML reader: role detection on the lower-cased tag).
+-/
+import PybtexModel.Lemmas.BibWritePieces
+import PybtexModel.Props.C04
+
 namespace Pybtex.Props
+open Pybtex Pybtex.Spec Pybtex.Bib Pybtex.BibSpec Pybtex.BibWrite Pybtex.C02
+
+/-! ### example persons -/
+
+/-- "van Beethoven, Jr, Ludwig X." -/
+def c02P1 : Person :=
+  { first := ["Ludwig".toList], middle := ["X.".toList], prelast := ["van".toList],
+    last := ["Beethoven".toList], lineage := ["Jr".toList] }
+/-- a Jr part without first name (section 4 #19): written "Last, Jr," -/
+def c02P2 : Person := { last := ["Last".toList], lineage := ["Jr".toList] }
+/-- two Last tokens, no von, no first name: written "World Bank," -/
+def c02P3 : Person := { last := ["World".toList, "Bank".toList] }
+/-- braces, a special character, a quote, a backslash, a protected comma and " and " -/
+def c02P4 : Person :=
+  { first := ["{\\'E}mile".toList], prelast := ["de".toList, "la".toList],
+    last := ["Vall{\\'e}e".toList, "{Poussin, and Co}".toList, "O\"Q\\x".toList] }
+
+/-! ### 1. persons -/
+
+/-- **Name round trip.**  For every person satisfying the explicit predicate `WFPerson` (what
+`Person(string)` produces — see `C02_wfperson_of_parse` — with no token ending in a backslash),
+the text `_format_name` writes and the text `__str__` gives are read back by `Person(text)` as the
+same person (same five token lists), nothing reported; and both texts coincide. -/
+theorem C02_person_roundtrip (p : Person) (h : WFPerson p = true) :
+    mkPerson (formatName p) [] [] [] [] [] = .ok (p, false) ∧
+    mkPerson (personStr p) [] [] [] [] [] = .ok (p, false) ∧
+    personStr p = formatName p := by
+  have hg := personGood_of_wf h
+  refine ⟨mkPerson_format hg, ?_, personStr_eq_format hg⟩
+  rw [personStr_eq_format hg]; exact mkPerson_format hg
+
+theorem C02_person_roundtrip_nonvacuous :
+    WFPerson c02P1 = true ∧ formatName c02P1 = "van Beethoven, Jr, Ludwig X.".toList ∧
+    WFPerson c02P2 = true ∧ formatName c02P2 = "Last, Jr,".toList ∧
+    WFPerson c02P3 = true ∧ formatName c02P3 = "World Bank,".toList ∧
+    WFPerson c02P4 = true ∧
+      formatName c02P4 = "de la Vall{\\'e}e {Poussin, and Co} O\"Q\\x, {\\'E}mile".toList := by
+  decide +kernel
+
+/-- why the empty First part has to be kept (repair C02-1): without the trailing comma the reader
+takes the Jr part for the first name, resp. the first Last token for the first name -/
+theorem C02_person_roundtrip_comma_needed :
+    mkPerson "Last, Jr".toList [] [] [] [] [] =
+      .ok ({ first := ["Jr".toList], last := ["Last".toList] }, false) ∧
+    mkPerson "World Bank".toList [] [] [] [] [] =
+      .ok ({ first := ["World".toList], last := ["Bank".toList] }, false) ∧
+    mkPerson "Last, Jr,".toList [] [] [] [] [] = .ok (c02P2, false) ∧
+    mkPerson "World Bank,".toList [] [] [] [] [] = .ok (c02P3, false) := by
+  decide +kernel
+
+/-- the proviso "no token ends in a backslash" cannot be dropped: `a\` followed by the joining
+blank is read as the separator `\ ` (the person is `Person('A\\\\ B C')`) -/
+theorem C02_person_roundtrip_backslash_neg :
+    let p : Person := { first := ["A\\".toList], middle := ["B".toList], last := ["C".toList] }
+    mkPerson "A\\\\ B C".toList [] [] [] [] [] = .ok (p, false) ∧
+    WFPersonCore p = true ∧ WFPerson p = false ∧
+    mkPerson (formatName p) [] [] [] [] [] =
+      .ok ({ first := ["A".toList], middle := ["B".toList], last := ["C".toList] }, false) := by
+  decide +kernel
+
+/-- **The five part texts** (`get_part_as_text`, the YAML / BibTeXML path): `Person(first=…,
+middle=…, prelast=…, last=…, lineage=…)` built from the blank-joined token lists gives the person
+back, whenever its tokens are clean (no structural condition on the five lists is needed). -/
+theorem C02_person_parts_roundtrip (p : Person)
+    (h : (personTokens p).all (fun t => tokCore t && noBsEnd t) = true) :
+    mkPerson [] (partText p.first) (partText p.middle) (partText p.prelast) (partText p.last)
+      (partText p.lineage) = .ok (p, false) := by
+  apply mkPerson_parts
+  intro t ht
+  simp only [List.all_eq_true, Bool.and_eq_true] at h
+  exact ⟨(h t ht).1, (h t ht).2⟩
+
+theorem C02_person_parts_roundtrip_nonvacuous :
+    (personTokens c02P4).all (fun t => tokCore t && noBsEnd t) = true ∧
+    partText c02P4.last = "Vall{\\'e}e {Poussin, and Co} O\"Q\\x".toList ∧
+    -- a person no name string denotes (two first names, a von token inside Last)
+    (personTokens { first := ["A".toList, "B".toList], last := ["x".toList, "Y".toList] }).all
+      (fun t => tokCore t && noBsEnd t) = true := by
+  decide +kernel
+
+/-- **The domain is what the reader produces.**  Every person `Person(name)` returns for a
+brace-balanced name (nesting ≤ 100) with at least one von / Last token satisfies `WFPersonCore`:
+tokens non-empty, balanced, without brace-level-0 white space, tie or comma; `last ≠ []`; no von
+token inside `last.dropLast`; `prelast` empty or ending in a von token; at most one first name,
+and no middle name without one.  (`WFPerson` adds only "no token ends in a backslash".) -/
+theorem C02_wfperson_of_parse (name : Str) (p : Person) (b : Bool)
+    (hbal : litScan false 0 name = some 0) (h : parseName name = .ok (p, b))
+    (hvl : p.prelast ++ p.last ≠ []) :
+    WFPersonCore p = true := by
+  have hne : name ≠ [] := by
+    rintro rfl
+    have : parseName [] = .error .valueError := by decide +kernel
+    rw [this] at h; cases h
+  have hparts := goodSrc_comma_parts hbal
+  have hpres := (C04_tokens_preserved name p b h).2
+  -- every token comes from a good source
+  have htok : ∀ t ∈ personTokens p, tokCore t = true ∧
+      (t ∈ Spec.caseTokens name → Spec.caseKnown t = true) := by
+    intro t ht
+    have hcore : tokCore t = true := by
+      revert hpres
+      cases hc : splitTex .comma name with
+      | nil => intro hp; exact hp.elim
+      | cons a r =>
+        have ha : GoodSrc a := hparts a (by rw [hc]; simp)
+        cases r with
+        | nil =>
+          intro hp
+          simp only [] at hp
+          -- one part: the name itself has no comma at brace level 0
+          have hname : GoodSrc name := by
+            refine ⟨hbal, ?_⟩
+            have hb := litScan_depthAfter name 0 0 hbal
+            obtain ⟨q, qs, h1, h2, _⟩ := splitLoop_main .comma (name.length + 1) name none (by omega) hb (Or.inl hne)
+            have hraw : splitTexRaw .comma name = q :: qs := by rw [splitTexRaw, h1]; rfl
+            have hlen : (splitTex .comma name).length = (q :: qs).length := by
+              have : splitTex .comma name = (splitTexRaw .comma name).map strip := by simp [splitTex, splitTexRaw]
+              rw [this, hraw]; simp
+            rw [hc] at hlen
+            have hqs : qs = [] := by
+              simp only [List.length_cons, List.length_nil] at hlen
+              exact List.eq_nil_of_length_eq_zero (by omega)
+            subst hqs
+            have hq : name = q := h2.singleton_inv
+            have := flat_comma_pieces name 0 none [] (by intro y; rfl) q
+              (by rw [← splitTexRaw_flat .comma name hb hne, hraw]; simp)
+            rw [hq]; exact this
+          apply tokCore_of_src hname
+          rw [← hp.1]
+          simp only [personTokens, hp.2, List.append_nil] at ht
+          exact ht
+        | cons c r' =>
+          have hcS : GoodSrc c := hparts c (by rw [hc]; simp)
+          cases r' with
+          | nil =>
+            intro hp
+            simp only [] at hp
+            simp only [personTokens, hp.2.1, List.append_nil, List.mem_append] at ht
+            rcases ht with ((h1 | h1) | h1) | h1
+            · exact tokCore_of_src hcS t (by rw [← hp.2.2]; simp [h1])
+            · exact tokCore_of_src hcS t (by rw [← hp.2.2]; simp [h1])
+            · exact tokCore_of_src ha t (by rw [← hp.1]; simp [h1])
+            · exact tokCore_of_src ha t (by rw [← hp.1]; simp [h1])
+          | cons d r'' =>
+            intro hp
+            simp only [] at hp
+            have hrest : GoodSrc (joinWith [' '] (d :: r'')) :=
+              goodSrc_join _ (fun x hx => hparts x (by rw [hc]; simp [hx]))
+            simp only [personTokens, List.mem_append] at ht
+            rcases ht with (((h1 | h1) | h1) | h1) | h1
+            · exact tokCore_of_src hrest t (by rw [← hp.2.2]; simp [h1])
+            · exact tokCore_of_src hrest t (by rw [← hp.2.2]; simp [h1])
+            · exact tokCore_of_src ha t (by rw [← hp.1]; simp [h1])
+            · exact tokCore_of_src ha t (by rw [← hp.1]; simp [h1])
+            · exact tokCore_of_src hcS t (by rw [← hp.2.1]; exact h1)
+    refine ⟨hcore, fun _ => ?_⟩
+    simp only [tokCore, Bool.and_eq_true, beq_iff_eq] at hcore
+    exact Names.caseKnown_of_scan (litScan_scan hcore.2)
+  -- the case-deciding tokens are tokens of the person
+  have hk : ∀ t ∈ Spec.caseTokens name, Spec.caseKnown t = true := by
+    intro t ht
+    have hmem : t ∈ personTokens p := by
+      have hp := hpres
+      unfold Spec.caseTokens at ht
+      revert hp ht
+      cases hc : splitTex .comma name with
+      | nil => intro ht _; simp at ht
+      | cons a r =>
+        cases r with
+        | nil =>
+          intro ht hp
+          simp only [] at hp ht
+          rw [← hp.1] at ht
+          simp only [personTokens, List.mem_append] at ht ⊢
+          rcases ht with ((h1 | h1) | h1) | h1 <;> simp [h1]
+        | cons c r' =>
+          cases r' with
+          | nil =>
+            intro ht hp
+            simp only [] at hp ht
+            have := Names.mem_of_mem_dropLast ht
+            rw [← hp.1] at this
+            simp only [personTokens, List.mem_append] at this ⊢
+            rcases this with h1 | h1 <;> simp [h1]
+          | cons d r'' =>
+            intro ht hp
+            simp only [] at hp ht
+            have := Names.mem_of_mem_dropLast ht
+            rw [← hp.1] at this
+            simp only [personTokens, List.mem_append] at this ⊢
+            rcases this with h1 | h1 <;> simp [h1]
+    exact (htok t hmem).2 ht
+  obtain ⟨_, h2, h3, h4, _⟩ := C04_von_longest name p b hk h
+  have hfirst := (C04_tokens_preserved name p b h).1
+  have hlast : p.last ≠ [] := h4 hvl
+  have hf1 : p.first.length ≤ 1 := by
+    rw [hfirst]; simp only [List.length_take]; omega
+  have hf2 : p.first = [] → p.middle = [] := by
+    intro hf
+    rw [hf] at hfirst
+    simp only [List.nil_append] at hfirst
+    cases hm : p.middle with
+    | nil => rfl
+    | cons x xs => rw [hm] at hfirst; simp at hfirst
+  simp only [WFPersonCore, Bool.and_eq_true, List.all_eq_true, decide_eq_true_eq, Bool.or_eq_true,
+    Bool.not_eq_true']
+  refine ⟨⟨⟨⟨⟨fun t ht => (htok t ht).1, hlast⟩, h2⟩, ?_⟩, hf1⟩, ?_⟩
+  · by_cases hp : p.prelast = []
+    · exact Or.inl hp
+    · right
+      obtain ⟨t, ht, hv⟩ := h3 hp
+      rw [ht]; simpa using hv
+  · by_cases hf : p.first = []
+    · exact Or.inr (hf2 hf)
+    · exact Or.inl hf
+
+theorem C02_wfperson_of_parse_nonvacuous :
+    litScan false 0 "de la Vall{\\'e}e {Poussin, and Co} O\"Q\\x, {\\'E}mile".toList = some 0 ∧
+    parseName "de la Vall{\\'e}e {Poussin, and Co} O\"Q\\x, {\\'E}mile".toList = .ok (c02P4, false) ∧
+    c02P4.prelast ++ c02P4.last ≠ [] ∧
+    parseName "Last, Jr,".toList = .ok (c02P2, false) ∧ parseName "World Bank,".toList = .ok (c02P3, false) := by
+  decide +kernel
+
 end Pybtex.Props
